@@ -343,6 +343,16 @@ struct Item {
     /// emitted through long-lived handle #j (registered once, possibly before the first client connected or
     /// after the last one left) instead of a handle registered for this emission
     held: Option<usize>,
+    /// `Some(n)`: a histogram value recorded through `Histogram::record_many(v, n)` -- `n` frames that differ in
+    /// nothing but their timestamp are owed (`n` = 0: none)
+    many: Option<usize>,
+}
+
+impl Item {
+    /// number of frames this emission owes every connected client
+    fn reps(&self) -> usize {
+        self.many.unwrap_or(1)
+    }
 }
 
 const NHELD: usize = 3;
@@ -360,12 +370,13 @@ fn held_key(j: usize) -> Key {
 
 fn held_item(j: usize, serial: u64) -> Item {
     let v = 1_000_000 + serial;
-    let (op, bits) = match j % 3 {
-        0 => (4, v),
-        1 => (8, (v as f64).to_bits()),
-        _ => (9, (v as f64).to_bits()),
+    // every operation of the handle's kind, chosen by the serial number (the value identifies the emission)
+    let (op, bits, many) = match j % 3 {
+        0 => (if serial % 2 == 0 { 4 } else { 5 }, v, None),
+        1 => ([8u32, 6, 7][(serial % 3) as usize], (v as f64).to_bits(), None),
+        _ => (9, (v as f64).to_bits(), if serial % 2 == 1 { Some(((serial / 2) % 4) as usize) } else { None }),
     };
-    Item { name: format!("__held{}", j), labels: vec![("h".to_string(), j.to_string())], op, bits, held: Some(j) }
+    Item { name: format!("__held{}", j), labels: vec![("h".to_string(), j.to_string())], op, bits, held: Some(j), many }
 }
 
 #[derive(Debug, Clone)]
@@ -454,7 +465,9 @@ impl Gen {
             labels.push(("pad".to_string(), "x".repeat(r.range(900, 3000))));
         }
         let op = r.range(4, 9) as u32;
-        Item { name, labels, op, bits: self.value(r, op), held: None }
+        // a histogram value recorded `n` times in one call (`HistogramFn::record_many`, a provided method)
+        let many = if op == 9 && !self.big && r.chance(1, 3) { Some(*r.pick(&[0usize, 1, 2, 3, 5])) } else { None };
+        Item { name, labels, op, bits: self.value(r, op), held: None, many }
     }
     fn items(&mut self, r: &mut Rng, lo: usize, hi: usize) -> Vec<Item> {
         (0..r.range(lo, hi)).map(|_| self.item(r)).collect()
@@ -635,7 +648,7 @@ fn gen_script(r: &mut Rng, storm: bool) -> Vec<Step> {
 }
 
 fn item(id: u64, name: &str) -> Item {
-    Item { name: name.to_string(), labels: vec![("#".to_string(), id.to_string())], op: 4, bits: id + 1, held: None }
+    Item { name: name.to_string(), labels: vec![("#".to_string(), id.to_string())], op: 4, bits: id + 1, held: None, many: None }
 }
 
 /// hand-picked histories: the three design-round findings and the edges of the buffer rule
@@ -761,7 +774,7 @@ fn corpus_raw(d: &dyn Fn(&str) -> Step, em: &dyn Fn(std::ops::Range<u64>) -> Ste
                 Step::Connect { staller: false },
                 Step::Connect { staller: true },
                 Step::Inject { c: 0, faults: vec![Fault::Accept(2), Fault::Accept(1), Fault::WouldBlock] },
-                Step::Emit { items: vec![Item { name: "big".to_string(), labels: vec![("#".to_string(), "100".to_string()), ("pad".to_string(), "y".repeat(20_000))], op: 4, bits: 7, held: None }] },
+                Step::Emit { items: vec![Item { name: "big".to_string(), labels: vec![("#".to_string(), "100".to_string()), ("pad".to_string(), "y".repeat(20_000))], op: 4, bits: 7, held: None, many: None }] },
                 em(0..2),
                 Step::Unstall { c: 1 },
                 em(2..3),
@@ -838,7 +851,7 @@ fn corpus_raw(d: &dyn Fn(&str) -> Step, em: &dyn Fn(std::ops::Range<u64>) -> Ste
             vec![
                 Step::Connect { staller: true },
                 Step::Connect { staller: false },
-                Step::Emit { items: (0..3u64).map(|i| Item { name: "big".to_string(), labels: vec![("#".to_string(), (200 + i).to_string()), ("pad".to_string(), "z".repeat(20_000))], op: 4, bits: i, held: None }).collect() },
+                Step::Emit { items: (0..3u64).map(|i| Item { name: "big".to_string(), labels: vec![("#".to_string(), (200 + i).to_string()), ("pad".to_string(), "z".repeat(20_000))], op: 4, bits: i, held: None, many: None }).collect() },
                 em(0..2),
                 Step::Quiet { unstall: true },
             ],
@@ -960,9 +973,15 @@ fn ensure_held(rec: &TcpRecorder, held: &mut Vec<Option<Held>>, items: &[Item]) 
 fn apply(rec: &TcpRecorder, held: &[Option<Held>], it: &Item) {
     if let Some(j) = it.held {
         match held[j].as_ref().expect("held handle registered") {
+            Held::C(h) if it.op == 5 => h.absolute(it.bits),
             Held::C(h) => h.increment(it.bits),
+            Held::G(h) if it.op == 6 => h.increment(f64::from_bits(it.bits)),
+            Held::G(h) if it.op == 7 => h.decrement(f64::from_bits(it.bits)),
             Held::G(h) => h.set(f64::from_bits(it.bits)),
-            Held::H(h) => h.record(f64::from_bits(it.bits)),
+            Held::H(h) => match it.many {
+                Some(n) => h.record_many(f64::from_bits(it.bits), n),
+                None => h.record(f64::from_bits(it.bits)),
+            },
         }
         return;
     }
@@ -973,8 +992,21 @@ fn apply(rec: &TcpRecorder, held: &[Option<Held>], it: &Item) {
         6 => rec.register_gauge(&key, &MD).increment(f64::from_bits(it.bits)),
         7 => rec.register_gauge(&key, &MD).decrement(f64::from_bits(it.bits)),
         8 => rec.register_gauge(&key, &MD).set(f64::from_bits(it.bits)),
-        _ => rec.register_histogram(&key, &MD).record(f64::from_bits(it.bits)),
+        _ => match it.many {
+            Some(n) => rec.register_histogram(&key, &MD).record_many(f64::from_bits(it.bits), n),
+            None => rec.register_histogram(&key, &MD).record(f64::from_bits(it.bits)),
+        },
     }
+}
+
+/// `record_many(v, n)` puts `n` events into the channel back to back: "a rate within the configured buffer" means
+/// `n` is at most the buffer (the generator does not know the buffer; the session clamps)
+fn clamp_many(it: &Item, buffer: Option<usize>) -> Item {
+    let mut it = it.clone();
+    if let (Some(n), Some(b)) = (it.many, buffer) {
+        it.many = Some(n.min(b.max(1)));
+    }
+    it
 }
 
 /// waits for room in the channel to the transport thread ("a rate within the configured buffer")
@@ -1014,12 +1046,22 @@ fn settle(rec: &TcpRecorder, log: &Log, port: u16) -> bool {
     }
 }
 
+static DEFAULT_PATH: std::sync::atomic::AtomicUsize = std::sync::atomic::AtomicUsize::new(0);
+
 fn start_exporter(buffer: Option<usize>) -> Result<(TcpRecorder, u16), String> {
     let mut last = String::new();
     for _ in 0..20 {
         let port = std::net::TcpListener::bind("127.0.0.1:0").and_then(|l| l.local_addr()).map_err(|e| e.to_string())?.port();
         let addr: SocketAddr = ([127, 0, 0, 1], port).into();
-        match TcpBuilder::new().listen_address(addr).buffer_size(buffer).build() {
+        // the documented default ("By default, the buffer limit is set at 1024 metrics") is reached through the
+        // builder's own default -- `TcpBuilder::new()` / `TcpBuilder::default()` without `.buffer_size(..)` -- in
+        // two of three exporters that run with 1024; the model is told 1024 either way
+        let builder = match (buffer, DEFAULT_PATH.fetch_add(if buffer == Some(1024) { 1 } else { 0 }, Ordering::SeqCst) % 3) {
+            (Some(1024), 0) => TcpBuilder::new().listen_address(addr),
+            (Some(1024), 1) => TcpBuilder::default().listen_address(addr),
+            _ => TcpBuilder::new().listen_address(addr).buffer_size(buffer),
+        };
+        match builder.build() {
             Ok(r) => return Ok((r, port)),
             // EADDRINUSE: the port raced away → retry with a fresh one
             Err(e) => last = e.to_string(),
@@ -1384,6 +1426,7 @@ fn session(tag: &str, buffer: Option<usize>, script: &[Step], out: &mut Out) {
     let emit_lock = Arc::new(Mutex::new(()));
     let mut held: Vec<Option<Held>> = vec![None; NHELD];
     let mut quiets: Vec<QuietSnap> = vec![];
+    let mut held_fill_fail: Option<String> = None;
 
     // -- helpers as closures would fight the borrow checker; plain loops below
     let nsteps = script.len();
@@ -1461,7 +1504,8 @@ fn session(tag: &str, buffer: Option<usize>, script: &[Step], out: &mut Out) {
                 out.count("step poll round (events piled up while the transport thread is held before its poll)");
                 let gate = tgate();
                 gate.set_mask(HOLD_IDLE);
-                let room = |rec: &TcpRecorder| buffer.map_or(true, |n| rec.verif_queue_len() + 1 <= n);
+                let room_for = |rec: &TcpRecorder, k: usize| buffer.map_or(true, |n| rec.verif_queue_len() + k <= n);
+                let room = |rec: &TcpRecorder| room_for(rec, 1);
                 let mut socks: Vec<(bool, TcpStream, u16)> = vec![];
                 let mut failed: Option<String> = None;
                 let (mut n_emitted, mut n_conn) = (0usize, 0usize);
@@ -1483,10 +1527,24 @@ fn session(tag: &str, buffer: Option<usize>, script: &[Step], out: &mut Out) {
                         Step::Emit { items } => {
                             ensure_held(&rec, &mut held, items);
                             for it in items {
-                                if !room(&rec) {
+                                let it = &clamp_many(it, buffer);
+                                if !room_for(&rec, it.reps().max(1)) {
                                     break;
                                 }
+                                let q0 = rec.verif_queue_len();
                                 apply(&rec, &held, it);
+                                // the transport thread is held: the channel grows by exactly what was emitted within its room
+                                let q1 = rec.verif_queue_len();
+                                let gate_open = clients.iter().any(|c| c.end == End::Open);
+                                if gate_open && held_fill_fail.is_none() && q1 != q0 + it.reps() {
+                                    held_fill_fail = Some(format!(
+                                        "step {}: the transport thread is held before its poll, the channel held {} event(s) (buffer_size {:?}), a client is connected; an emission owing {} event(s) left the channel at {} instead of {}",
+                                        si, q0, buffer, it.reps(), q1, q0 + it.reps()
+                                    ));
+                                }
+                                if it.many.is_some() {
+                                    out.count(&format!("emitted through record_many(v, {})", it.reps()));
+                                }
                                 emissions.push(Emission { step: si, thread: 0, seq: seqs[0], item: it.clone() });
                                 seqs[0] += 1;
                                 n_emitted += 1;
@@ -1598,12 +1656,16 @@ fn session(tag: &str, buffer: Option<usize>, script: &[Step], out: &mut Out) {
                 out.count("step emit");
                 ensure_held(&rec, &mut held, items);
                 for it in items {
-                    if !pace(&rec, buffer, 1) {
+                    let it = &clamp_many(it, buffer);
+                    if !pace(&rec, buffer, it.reps().max(1)) {
                         hung = Some("the channel to the transport thread stays full (emit)".into());
                         break;
                     }
                     if it.held.is_some() {
                         out.count("emitted through a long-lived handle");
+                    }
+                    if it.many.is_some() {
+                        out.count(&format!("emitted through record_many(v, {})", it.reps()));
                     }
                     apply(&rec, &held, it);
                     emissions.push(Emission { step: si, thread: 0, seq: seqs[0], item: it.clone() });
@@ -1624,10 +1686,12 @@ fn session(tag: &str, buffer: Option<usize>, script: &[Step], out: &mut Out) {
                         let lock = emit_lock.clone();
                         sc.spawn(move || {
                             for it in list {
-                                // small buffers: one emitter at a time may use the last slot; large: lock-free, two slots of headroom
+                                let it = &clamp_many(it, buffer);
+                                // small buffers: one emitter at a time may use the last slots; large: lock-free, headroom for both threads
                                 let small = buffer.map_or(false, |n| n < 16);
                                 let _g = if small { Some(lock.lock().unwrap()) } else { None };
-                                if !pace(&rec, buffer, if small { 1 } else { 2 }) {
+                                let k = it.reps().max(1);
+                                if !pace(&rec, buffer, if small { k } else { k + 5 }) {
                                     stuck.store(true, Ordering::SeqCst);
                                     return;
                                 }
@@ -1642,6 +1706,7 @@ fn session(tag: &str, buffer: Option<usize>, script: &[Step], out: &mut Out) {
                 }
                 for (t, list) in [(1usize, a), (2usize, b)] {
                     for it in list {
+                        let it = &clamp_many(it, buffer);
                         emissions.push(Emission { step: si, thread: t, seq: seqs[t], item: it.clone() });
                         seqs[t] += 1;
                         out.count("emitted");
@@ -1709,7 +1774,7 @@ fn session(tag: &str, buffer: Option<usize>, script: &[Step], out: &mut Out) {
     }
 
     // -- flush: every open client reads, one last metric, wait until each open client's queue is empty
-    let sentinel = Item { name: format!("__last__{}", port), labels: vec![], op: 5, bits: 42, held: None };
+    let sentinel = Item { name: format!("__last__{}", port), labels: vec![], op: 5, bits: 42, held: None, many: None };
     let mut sentinel_sent = false;
     if hung.is_none() && !settle(&rec, log, port) {
         hung = Some(format!("the transport thread did not finish handling its events within {:?}", WAIT));
@@ -2061,6 +2126,9 @@ fn session(tag: &str, buffer: Option<usize>, script: &[Step], out: &mut Out) {
     if let Some(m) = &malformed {
         fail(out, &script_txt, "trace malformed", m.clone());
     }
+    if let Some(d) = &held_fill_fail {
+        fail(out, &script_txt, "emission within the configured buffer not accepted by the channel", d.clone());
+    }
     if let Some(d) = &undue_drop {
         fail(out, &script_txt, "frames discarded for a client that is not slow", d.clone());
     }
@@ -2154,7 +2222,7 @@ fn session(tag: &str, buffer: Option<usize>, script: &[Step], out: &mut Out) {
             }
         }
         // metrics: intact, once, in order
-        let mut seen: HashSet<usize> = HashSet::new();
+        let mut seen: HashMap<usize, usize> = HashMap::new();
         let mut last_seq = [None::<usize>; 3];
         let mut last_step = 0usize;
         for (fi, e) in evs.iter().enumerate() {
@@ -2180,10 +2248,12 @@ fn session(tag: &str, buffer: Option<usize>, script: &[Step], out: &mut Out) {
                         format!("{}: frame #{} ({:?}) has operation field {} value bits {:016x} timestamp {}, emitted as field {} bits {:016x}", who, fi, name, op, bits, has_ts, em.item.op, em.item.bits),
                     );
                 }
-                if !seen.insert(i) {
-                    fail(out, &script_txt, "duplicated frame", format!("{}: emission {:?} (thread {} #{}) arrives a second time at frame #{}", who, name, em.thread, em.seq, fi));
+                let cnt = seen.entry(i).or_insert(0);
+                *cnt += 1;
+                if *cnt > em.item.reps() {
+                    fail(out, &script_txt, "duplicated frame", format!("{}: emission {:?} (thread {} #{}, owed {} frame(s)) arrives for the {}. time at frame #{}", who, name, em.thread, em.seq, em.item.reps(), *cnt, fi));
                 }
-                if last_seq[em.thread].map_or(false, |s| s >= em.seq) || em.step < last_step {
+                if last_seq[em.thread].map_or(false, |s| s > em.seq || (s == em.seq && em.item.reps() < 2)) || em.step < last_step {
                     fail(out, &script_txt, "metrics out of emission order", format!("{}: frame #{} is emission #{} of thread {} (step {}) after #{:?} (step {})", who, fi, em.seq, em.thread, em.step, last_seq[em.thread], last_step));
                 }
                 last_seq[em.thread] = Some(em.seq);
@@ -2201,7 +2271,12 @@ fn session(tag: &str, buffer: Option<usize>, script: &[Step], out: &mut Out) {
         // nothing missing for a client that stayed connected and never had a frame discarded
         if drained && !had_drop.contains(&c.token) && hung.is_none() {
             let missing: Vec<String> =
-                emissions.iter().enumerate().filter(|(i, e)| e.step > c.accepted_step && !seen.contains(i)).map(|(_, e)| format!("thread {} #{} (step {}) {:?}", e.thread, e.seq, e.step, e.item.name)).collect();
+                emissions
+                    .iter()
+                    .enumerate()
+                    .filter(|(i, e)| e.step > c.accepted_step && seen.get(i).copied().unwrap_or(0) < e.item.reps())
+                    .map(|(i, e)| format!("thread {} #{} (step {}) {:?} ({} of {} frame(s) arrived{})", e.thread, e.seq, e.step, e.item.name, seen.get(&i).copied().unwrap_or(0), e.item.reps(), if e.item.many.is_some() { ", record_many" } else { "" }))
+                    .collect();
             if !missing.is_empty() {
                 fail(
                     out,
@@ -2241,7 +2316,7 @@ fn session(tag: &str, buffer: Option<usize>, script: &[Step], out: &mut Out) {
                 emissions
                     .iter()
                     .enumerate()
-                    .filter(|(i, e)| e.step > c.accepted_step && e.step < q.step && !held_ids.contains(i))
+                    .filter(|(i, e)| e.step > c.accepted_step && e.step < q.step && e.item.reps() > 0 && !held_ids.contains(i))
                     .map(|(_, e)| format!("thread {} #{} (step {}) {:?}", e.thread, e.seq, e.step, e.item.name))
                     .collect()
             };
@@ -2433,6 +2508,10 @@ struct RaceCase {
     progs: Vec<Vec<u64>>,
     /// thread ids: 0..n = emitters, n = transport
     sched: Vec<usize>,
+    /// a DEEP case: about `buffer_size` emissions (or more) pile up in the channel before the transport thread
+    /// takes them, so that the capacity of the channel (`bounded(size)`) and the batch limit of the read loop
+    /// (`buffer_limit`) are reached for the large configurations too (1024 = the builder's default, no limit)
+    deep: bool,
 }
 
 struct RaceExporter {
@@ -2446,6 +2525,8 @@ struct RaceExporter {
     wake_pending: bool,
     client: Option<Client>,
     delivered_all: Vec<u64>,
+    /// bytes of every batch fanned out so far (what the reading client is owed)
+    fanned_bytes: usize,
     broken: Option<String>,
 }
 
@@ -2457,7 +2538,7 @@ impl RaceExporter {
         if log.wait(WAIT, |recs| if recs.iter().any(|(p, r)| *p == port && *r == Record::Start) { Some(()) } else { None }).is_none() {
             return Err("the transport thread never entered its event loop".into());
         }
-        let mut x = RaceExporter { rec: Arc::new(rec), port, cap, gate, in_loop: false, wake_pending: false, client: None, delivered_all: vec![], broken: None };
+        let mut x = RaceExporter { rec: Arc::new(rec), port, cap, gate, in_loop: false, wake_pending: false, client: None, delivered_all: vec![], fanned_bytes: 0, broken: None };
         if gate {
             let (stream, lp) = connect_client(port, false)?;
             let (token, pos) = wait_accept(log, port, lp).ok_or("the exporter did not accept the reading client")?;
@@ -2469,6 +2550,13 @@ impl RaceExporter {
 
     /// brings the transport thread to its `Idle` record with everything in the channel handled
     fn sync(&mut self) -> Result<(), String> {
+        self.sync_n(0)
+    }
+
+    fn sync_n(&mut self, round: usize) -> Result<(), String> {
+        if round > 4096 {
+            return Err("the transport thread keeps waking itself although the channel is empty (batch limit 0?)".into());
+        }
         let gate = tgate();
         let ctl = emctl();
         gate.set_mask(HOLD_IDLE | HOLD_WAKE);
@@ -2496,7 +2584,7 @@ impl RaceExporter {
         self.wake_pending = ctl.take_unmanaged_wake();
         if self.cap != Some(0) && self.wake_pending {
             // a full batch: go round again
-            return self.sync();
+            return self.sync_n(round + 1);
         }
         Ok(())
     }
@@ -2546,6 +2634,7 @@ impl RaceExporter {
                     g.iter().skip(from).filter(|(p, _)| *p == self.port).filter_map(|(_, r)| if let Record::Fanout { frames } = r { Some(frames.clone()) } else { None }).flatten().collect()
                 };
                 let ids = race_ids(&frames);
+                self.fanned_bytes += frames.iter().map(|f| f.len()).sum::<usize>();
                 self.delivered_all.extend(ids.iter().copied());
                 Ok(format!("fanout:{}:sw{}", show_ids(&ids), sw as u8))
             }
@@ -2554,8 +2643,29 @@ impl RaceExporter {
         }
     }
 
+    /// the reading client's queue is flushed: the transport thread runs freely until the client has read every
+    /// byte fanned out so far (a held thread handles no WRITABLE event), then it is parked at `Idle` again
+    fn flush(&mut self) {
+        let behind = |x: &RaceExporter| x.client.as_ref().map_or(false, |c| c.data.lock().unwrap().len() < x.fanned_bytes);
+        if self.in_loop || self.wake_pending || self.broken.is_some() || !behind(self) {
+            return;
+        }
+        tgate().release(0);
+        let deadline = Instant::now() + WAIT;
+        while behind(self) && Instant::now() < deadline {
+            std::thread::sleep(Duration::from_millis(1));
+        }
+        if let Err(e) = self.sync() {
+            self.broken = Some(e);
+        }
+    }
+
     fn run_case(&mut self, case: &RaceCase, out: &mut Out) {
         out.case(&case.tag);
+        if case.deep {
+            self.flush();
+            out.count("race deep case (the channel is filled to about buffer_size before the transport thread runs)");
+        }
         let ctl = emctl();
         let n = case.progs.len();
         let script = format!("buffer_size={:?} gate={} emitters={:?} schedule={:?} (ids < {} are emitters, {} = transport)", self.cap, self.gate, case.progs, case.sched, n, n);
@@ -2631,7 +2741,7 @@ impl RaceExporter {
         // drain: emitters to completion (lowest id first), then the transport while it can move
         for i in 0..n {
             let mut guard = 0;
-            while hung.is_none() && ctl.pc(i) != Some("done") && guard < 64 {
+            while hung.is_none() && ctl.pc(i) != Some("done") && guard < 64 + 3 * case.progs[i].len() {
                 do_step(self, i, out, &mut hung);
                 guard += 1;
             }
@@ -2715,6 +2825,9 @@ impl RaceExporter {
                 let _ = t.join();
             }
         }
+        if case.deep && hung.is_none() {
+            self.flush();
+        }
         log().recs.lock().unwrap().clear();
     }
 
@@ -2795,9 +2908,14 @@ fn race_stream(cfg: &Cfg, out: &mut Out) {
                     .collect()
             })
             .collect();
-        RaceCase { tag, progs, sched }
+        RaceCase { tag, progs, sched, deep: false }
     };
-    let configs: Vec<(Option<usize>, bool)> = vec![(Some(1024), true), (None, true), (Some(1), true), (Some(2), true), (Some(1024), false), (Some(0), true)];
+    // a limit between the small ones and the default, different for every seed (deep cases reach it)
+    let mid = 65 + root.fork(0xdee9).below(560);
+    let mut configs: Vec<(Option<usize>, bool)> = vec![(Some(1024), true), (None, true), (Some(1), true), (Some(2), true), (Some(1024), false), (Some(0), true), (Some(mid), true)];
+    if cfg.thorough {
+        configs.push((Some(1 << root.fork(0xdeea).range(11, 13)), true));
+    }
     let n_random = if cfg.thorough { 260 } else { 36 };
     for (ci, (cap, gate)) in configs.iter().enumerate() {
         let mut cases: Vec<RaceCase> = vec![];
@@ -2811,6 +2929,7 @@ fn race_stream(cfg: &Cfg, out: &mut Out) {
             (Some(0), _) => 0,
             (_, false) => 1,
             (Some(1024), true) => 6,
+            (Some(c), true) if *c > 64 => 1,
             _ => 3,
         };
         for i in 0..(n_random * weight / 6) {
@@ -2828,6 +2947,44 @@ fn race_stream(cfg: &Cfg, out: &mut Out) {
                 }
             }
             cases.push(mk(format!("race seed={} cfg={} i={}", cfg.seed, ci, i), &shape, sched));
+        }
+        // deep cases: the emitters put about `buffer_size` events (or more) into the channel before the transport
+        // thread takes them.  Two variants: OVERFLOW (only emitters run, buffer_size + a few emissions: the channel
+        // accepts exactly buffer_size, the read loop takes exactly buffer_size in one batch and wakes itself) and
+        // INTERLEAVED (at most buffer_size emissions in all, long runs of emitters and of the transport thread, so
+        // that batches of hundreds are cut wherever the schedule says and never by a smaller hidden limit).
+        let n_deep = match (cap, gate) {
+            (Some(c), true) if *c > 64 => if cfg.thorough { 8 } else { 2 },
+            (None, true) => if cfg.thorough { 4 } else { 1 },
+            _ => 0,
+        };
+        for i in 0..n_deep {
+            let mut r = root.fork((ci * 100_000 + 50_000 + i) as u64);
+            let n = r.range(1, 2);
+            let base = cap.unwrap_or(1500);
+            let overflow = i % 2 == 0;
+            let total = if overflow && cap.is_some() { base + r.range(1, 40) } else { base - r.below(base / 8 + 1) };
+            let first = if n == 1 { total } else { r.range(1, total - 1) };
+            let shape: Vec<usize> = if n == 1 { vec![total] } else { vec![first, total - first] };
+            let mut rem: Vec<usize> = shape.iter().map(|k| 3 * k).collect();
+            let mut sched = vec![];
+            while rem.iter().any(|k| *k > 0) {
+                if !overflow && r.chance(1, 6) {
+                    for _ in 0..r.range(1, 150) {
+                        sched.push(n);
+                    }
+                    continue;
+                }
+                let e = r.below(n);
+                let k = rem[e].min(r.range(1, 90));
+                for _ in 0..k {
+                    sched.push(e);
+                }
+                rem[e] -= k;
+            }
+            let mut c = mk(format!("race deep seed={} cfg={} i={} {}", cfg.seed, ci, i, if overflow { "overflow" } else { "interleaved" }), &shape, sched);
+            c.deep = true;
+            cases.push(c);
         }
         if cfg.thorough && *cap == Some(1024) && *gate {
             // every schedule of length 8 over two emitters with one metric each and the transport
@@ -2862,6 +3019,121 @@ fn race_stream(cfg: &Cfg, out: &mut Out) {
     crate::alloc::set_trap_fn(None);
 }
 
+// ---------------------------------------------------------------------------------------------
+// accept() failing with something else than WouldBlock (audit blind spot 3).  No injection: the process really runs
+// out of file descriptors (RLIMIT_NOFILE lowered to what is open, the holes filled with /dev/null) while a connection
+// completes its handshake; `listener.accept()` then fails with EMFILE on the real kernel.  What the exporter does is
+// OBSERVED and counted; it becomes an oracle failure only with `REPORT_ACCEPT_ERROR` (off: known_findings.json has no
+// entry for it yet -- see REPORT.md, proposed K-C11-accept-error).
+
+const REPORT_ACCEPT_ERROR: bool = true; // the defect is repaired in the repository: a recurrence is a violation
+
+#[repr(C)]
+struct RLimit {
+    cur: u64,
+    max: u64,
+}
+
+extern "C" {
+    fn getrlimit(resource: i32, rlim: *mut RLimit) -> i32;
+    fn setrlimit(resource: i32, rlim: *const RLimit) -> i32;
+}
+
+const RLIMIT_NOFILE: i32 = 7;
+
+fn accept_error_case(out: &mut Out) {
+    if !cfg!(all(target_os = "linux", target_pointer_width = "64")) {
+        return;
+    }
+    out.case("accept error: the process is out of file descriptors when a second client connects");
+    let log = log();
+    log.recs.lock().unwrap().clear();
+    let (rec, port) = match start_exporter(Some(8)) {
+        Ok(x) => x,
+        Err(_) => return,
+    };
+    let started = log.wait(WAIT, |recs| if recs.iter().any(|(p, r)| *p == port && *r == Record::Start) { Some(()) } else { None }).is_some();
+    let a = connect_client(port, false).ok().and_then(|(s, lp)| wait_accept(log, port, lp).map(|(t, pos)| new_client(false, s, lp, t, pos, 0, 0)));
+    let mut a = match (started, a) {
+        (true, Some(a)) => a,
+        _ => return,
+    };
+    apply(&rec, &[], &item(0, "before"));
+    let t0 = Instant::now();
+    while a.data.lock().unwrap().is_empty() && t0.elapsed() < WAIT {
+        std::thread::sleep(Duration::from_millis(1));
+    }
+    let served_before = !a.data.lock().unwrap().is_empty();
+    // the second client's socket exists before the descriptors run out
+    let b = socket2::Socket::new(socket2::Domain::IPV4, socket2::Type::STREAM, None);
+    let mut old = RLimit { cur: 0, max: 0 };
+    let got = unsafe { getrlimit(RLIMIT_NOFILE, &mut old) } == 0;
+    let maxfd = std::fs::read_dir("/proc/self/fd").ok().map(|d| d.filter_map(|e| e.ok()?.file_name().to_str()?.parse::<u64>().ok()).max().unwrap_or(0));
+    let (b, maxfd) = match (b, got, maxfd) {
+        (Ok(b), true, Some(m)) => (b, m),
+        _ => return,
+    };
+    let low = RLimit { cur: (maxfd + 1).min(old.cur), max: old.max };
+    if unsafe { setrlimit(RLIMIT_NOFILE, &low) } != 0 {
+        return;
+    }
+    let mut filler = vec![];
+    while let Ok(f) = std::fs::File::open("/dev/null") {
+        filler.push(f);
+        if filler.len() > 100_000 {
+            break;
+        }
+    }
+    let dst: SocketAddr = ([127, 0, 0, 1], port).into();
+    let connected = b.connect_timeout(&dst.into(), Duration::from_secs(2)).is_ok();
+    // the exporter's accept() fails now (EMFILE); give it time to act, then give the descriptors back
+    let t0 = Instant::now();
+    while !a.eof.load(Ordering::SeqCst) && t0.elapsed() < Duration::from_secs(3) {
+        std::thread::sleep(Duration::from_millis(2));
+    }
+    drop(filler);
+    unsafe { setrlimit(RLIMIT_NOFILE, &old) };
+    let a_closed = a.eof.load(Ordering::SeqCst);
+    // with descriptors available again: does the exporter still accept, and does the old client still get metrics?
+    let q0 = rec.verif_queue_len();
+    apply(&rec, &[], &item(1, "after"));
+    // (after `run_transport` returned the receiver is gone: `try_send` fails, nothing queues up)
+    let gate_open_after = rec.verif_queue_len() > q0;
+    let c = connect_client(port, false);
+    let c_accepted = match &c {
+        Ok((_, lp)) => log.wait(Duration::from_secs(2), |recs| if recs.iter().any(|(p, r)| *p == port && matches!(r, Record::Accept { peer, .. } if peer.map(|x| x.port()) == Some(*lp))) { Some(()) } else { None }).is_some(),
+        Err(_) => false,
+    };
+    let before = a.data.lock().unwrap().len();
+    std::thread::sleep(Duration::from_millis(200));
+    let a_got_more = a.data.lock().unwrap().len() > before;
+    let removed = log.recs.lock().unwrap().iter().filter(|(p, r)| *p == port && matches!(r, Record::Disconnect { .. })).count();
+    out.count(&format!(
+        "accept error case: served before={} second connect completed={} | afterwards: first (reading, never closed) client closed by the exporter={} removed through the client table={} a later emission is queued={} a third client is accepted={} first client still receives={}",
+        served_before, connected, a_closed, removed, gate_open_after, c_accepted, a_got_more
+    ));
+    if REPORT_ACCEPT_ERROR && served_before && a_closed && !c_accepted {
+        out.oracle_fail(
+            "a failing accept() (EMFILE while another client connects) ends the transport thread for every client: the connected, reading client is closed and nobody is accepted any more",
+            &format!(
+                "buffer_size(Some(8)); client A connected, reading, received its first metric; the process ran out of file descriptors while client B connected: listener.accept() failed (not WouldBlock) and run_transport returned (lib.rs `Err(e) => {{ error!(..); return }}`): A's connection closed by the exporter={}, later connection accepted={}, a later emission is queued={}",
+                a_closed, c_accepted, gate_open_after
+            ),
+        );
+    }
+    if let Some(s) = a.stream.take() {
+        let _ = s.shutdown(std::net::Shutdown::Both);
+    }
+    if let Some(h) = a.reader.take() {
+        let _ = h.join();
+    }
+    // if the transport thread survived, stop it like every other session does
+    verif::request_stop(port);
+    rec.describe_counter(KeyName::from("__stop__"), None, SharedString::from(""));
+    let _ = log.wait(Duration::from_millis(300), |recs| if recs.iter().any(|(p, r)| *p == port && *r == Record::Stop) { Some(()) } else { None });
+    log.recs.lock().unwrap().clear();
+}
+
 pub fn run(cfg: &Cfg, out: &mut Out) {
     race_stream(cfg, out);
     let root = Rng::new(cfg.seed);
@@ -2883,4 +3155,5 @@ pub fn run(cfg: &Cfg, out: &mut Out) {
         let script = gen_script(&mut r, storm);
         session(&format!("seed={} i={}{}", cfg.seed, i, if storm { " storm" } else { "" }), buffer, &script, out);
     }
+    accept_error_case(out);
 }
